@@ -56,6 +56,8 @@ func parseConf(t reflect.Type, data interface{}) (name string, fillConf func(con
 		return
 	}
 	var names []string
+	// Copy without plugin name key: data should not be modified, it can be decoded again (e.g. by factory).
+	confWithoutName := make(map[string]interface{}, len(confData))
 	for key, val := range confData {
 		if PluginNameKey == strings.ToLower(key) {
 			strVal, ok := val.(string)
@@ -64,9 +66,11 @@ func parseConf(t reflect.Type, data interface{}) (name string, fillConf func(con
 				return
 			}
 			names = append(names, strVal)
-			delete(confData, key)
+			continue
 		}
+		confWithoutName[key] = val
 	}
+	confData = confWithoutName
 	if len(names) == 0 {
 		err = errors.Errorf("plugin %s expected", PluginNameKey)
 		return
